@@ -30,6 +30,24 @@ def node_of(h):
     return h if isinstance(h, int) else h.node
 
 
+class View:
+    """What the sweep-style judges of C10/C18 expect of an `AllFunctions`
+    manager, taken from a `World` at a quiescent point."""
+
+    def __init__(self, w):
+        self.bdd = w.raw
+        self.sp = w.sp
+        self.names = tuple(w.sp.names)
+        self.order = tuple(sorted(w.raw.vars, key=w.raw.vars.get))
+        if w.kind == 'autoref':
+            self.ab = w.bdd
+        else:
+            ab = w._a.BDD()
+            ab._bdd = w.raw
+            ab.vars = w.raw.vars
+            self.ab = ab
+
+
 class World:
     """One manager under observation."""
 
@@ -69,6 +87,7 @@ class World:
         self.fresh_names = (f'v{i}' for i in itertools.count())
         self.semantic_cache = True
         self.canon = True
+        self.build_names = None
 
     # ---------------------------------------------------------- holding
     def hold(self, h, tt):
@@ -247,6 +266,12 @@ class World:
     # each step returns a short description; violations are raised
     def s_build(self):
         t = random_table(self.rng, self.sp)
+        if self.build_names is not None:
+            # functions over some of the declared names only, so that
+            # the others are declared but unused
+            sub = Space([v for v in self.sp.names if v in self.build_names])
+            if sub.names:
+                t = sub.lift(random_table(self.rng, sub), self.sp)
         if self.reordering:
             h = self.build_public(t)
             self.accept('ite', h, t)
@@ -640,8 +665,11 @@ class World:
             self.watch.first = dict()
 
     def s_undeclare(self):
-        """Collect, then remove unused variables (all, or a subset)."""
-        self.bdd.collect_garbage()
+        """Remove unused variables (all, or a subset), half of the time
+        after a collection (without one, a level that holds only
+        unreferenced nodes counts as used and is left alone)."""
+        if self.rng.random() < 0.5:
+            self.bdd.collect_garbage()
         used = {i for i, _, _ in self.raw._succ.values()}
         unused = [v for v, i in self.raw.vars.items() if i not in used]
         if not unused:
